@@ -407,7 +407,13 @@ func (x *Exec) modelDecode(fr *Frame, st *State, args []Val, site string) Val {
 	byteT := types.Typ[types.Uint8]
 	alive := c.True()
 	for k := 0; k < n; k++ {
-		ov := x.loadElem(st, anyT, outs.Arr, x.slot(outs.Off, c.Int(int64(k)))).(VIface)
+		var at *Term
+		if outs.Off.ival != nil {
+			at = c.Add(outs.Off, c.Int(int64(k))) // literal position: folds against the stores that built the argument list
+		} else {
+			at = x.slot(outs.Off, c.Int(int64(k)))
+		}
+		ov := x.loadElem(st, anyT, outs.Arr, at).(VIface)
 		p, isPtr := x.unboxPtr(ov.Val)
 		if !isPtr {
 			panic(unsupported("util.Decode output is not a local pointer"))
@@ -450,6 +456,9 @@ func (x *Exec) modelDecode(fr *Frame, st *State, args []Val, site string) Val {
 			x.assume(st, c.Forall([]*Term{i}, c.And(
 				c.Implies(in, c.Eq(sel, c.Select(inner, c.Add(buf.Off, rel)))),
 				c.Implies(c.Not(in), c.Eq(sel, c.Select(oldInner, i)))), []*Term{sel}))
+			if !x.dry {
+				x.frameCheckElemRange(st, key, sliceTarget.Arr, sliceTarget.Off, c.Add(sliceTarget.Off, width), doit, site)
+			}
 			x.heapSet(st, key, c.Ite(doit, c.Store(comp2, sliceTarget.Arr, np), comp2))
 		} else {
 			old := x.load(fr, st, p, site)
@@ -462,7 +471,7 @@ func (x *Exec) modelDecode(fr *Frame, st *State, args []Val, site string) Val {
 		adv := VSlice{buf.Arr, c.Add(buf.Off, width), c.Sub(buf.Len, width), c.Sub(buf.Cap, width)}
 		drained := VSlice{buf.Arr, c.Add(buf.Off, buf.Len), c.Int(0), c.Sub(buf.Cap, buf.Len)}
 		nb := x.iteVal(doit, adv, x.iteVal(fail, drained, buf))
-		x.storeFieldNoCheck(st, BT, fi, bp, nb)
+		x.storeField(st, BT, fi, bp, nb)
 		alive = doit
 	}
 	errV := x.errNonNil(st).(VIface)
